@@ -48,6 +48,7 @@ type (
 		storeCh      chan SessionStore
 		info         *SessionInfo
 		done         chan struct{}
+		closeOnce    sync.Once
 		pending      map[uint16]*Message
 		pendingQueue []uint16
 		nextID       uint16
@@ -207,7 +208,9 @@ func (s *Session) cleanSession() bool {
 }
 
 func (s *Session) close() {
-	close(s.done)
+	// A session can be closed both by the connection that replaces it and by
+	// the teardown of the connection that used it.
+	s.closeOnce.Do(func() { close(s.done) })
 }
 
 func (s *Session) doResend() {
